@@ -101,7 +101,12 @@ func runC04(p *Prog, r *Report) {
 		af := sd.Ev("call", "time.AfterFunc")
 		ok := len(af) == 1 && strings.HasSuffix(af[0].Args[0], ".resendTime") && af.AllGuarded(af[0].Args[0]+" > 0")
 		r.Check(ok, R, "armed-iff-positive", af.Pos(p), "AfterFunc(resendTime, …) only when resendTime > 0", "the retry timer is not armed exactly under resendTime > 0 with that duration (0 must mean: never retry): "+guardsOf(af))
-		st := sd.Ev("store", "*.resendTimer")
+		var st Sel
+		for _, e := range sd.Ev("store", "*.resendTimer") {
+			if e.Args[0] != "nil" {
+				st = append(st, e)
+			}
+		}
 		r.Check(len(st) == 1 && strings.HasPrefix(st[0].Args[0], "time.AfterFunc("), R, "timer-kept", st.Pos(p), "kept in resendTimer", "retry timer not stored")
 		cl := sd.Closure(R, 0)
 		if cl.OK() {
